@@ -74,6 +74,10 @@ def _check_main(run, P):
              "of the last iteration of that loop)", minimum=15)
     run.rule("C12.allocatable", "is_allocatable: leaves answer by their own kind, "
              "aggregates ask every component recursively", minimum=4)
+    run.rule("C12.emitters", "the type traversals that emit allocation, release and "
+             "initialisation code reach every component, allocate outside-in, release "
+             "inside-out and nullify after release", minimum=12)
+    _emitters(run, P)
     _fresh(run, P)
     _allocatable(run, P)
     _exit(run, P)
@@ -622,3 +626,130 @@ def check(run, P):
     _check_main(run, P)
     from . import generic
     generic.lints(run, P, "C12")
+
+
+def _emitters(run, P):
+    m = P.module("dagrt.codegen.fortran")
+
+    def cls(name):
+        c = m.classes.get(name)
+        if c is None:
+            raise AnalysisError(f"fortran.{name} not found")
+        return c
+
+    def calls(node, pred):
+        return [x for x in ast.walk(node) if isinstance(x, ast.Call) and pred(x)]
+
+    def nodes_with(g, pred):
+        return [n for n in g.nodes if n.kind == "stmt" and n.ast is not None
+                and any(pred(x) for x in walk_fragment(n.ast) if isinstance(x, ast.Call))]
+
+    def is_rec_into(attr):
+        return lambda x: dotted(x.func) == "self.rec" and x.args and (
+            (isinstance(x.args[0], ast.Attribute) and x.args[0].attr == attr)
+            or (isinstance(x.args[0], ast.Name) and x.args[0].id == attr))
+
+    def emits(prefix):
+        def pred(x):
+            d = dotted(x.func) or ""
+            if not (d.endswith("emit_traceable") or d.endswith(".emit")) or not x.args:
+                return False
+            a = x.args[0]
+            if isinstance(a, ast.Call) and isinstance(a.func, ast.Attribute) and a.func.attr == "format":
+                a = a.func.value
+            t = string_prefix(a)
+            if t is None and isinstance(a, ast.BinOp):
+                t = string_prefix(a.left)
+            return t is not None and t.startswith(prefix)
+        return pred
+
+    # (1) every aggregate is descended into
+    for cname in ("CodeGeneratingTypeVisitor", "AssignmentEmitter"):
+        c = cls(cname)
+        for meth, comp in (("visit_ArrayType", "element_type"), ("visit_PointerType", "pointee_type")):
+            f = c.methods.get(meth)
+            if f is None:
+                continue
+            g = CFG(f.node)
+            recs = nodes_with(g, is_rec_into(comp))
+            # early exits are allowed only under the 'only if allocatable' filter
+            filt = [n for n in g.nodes if n.kind == "test"
+                    and "recurse_only_if_allocatable" in ast.unparse(n.ast)
+                    and "is_allocatable()" in ast.unparse(n.ast)]
+            reach = g.reachable([g.entry], avoid=recs + filt, follow_exc=False, include_start=True)
+            ok = bool(recs) and g.exit not in reach
+            run.ob("C12.emitters", f, recs[0].ast if recs else f.node, ok,
+                   construct=f"{cname}.{meth}: self.rec(<type>.{comp}, ...) on every path that passes "
+                             f"the allocatable filter",
+                   why="a component that is not visited is not allocated, released or copied")
+            if meth == "visit_ArrayType":
+                ent = nodes_with(g, lambda x: (dotted(x.func) or "").endswith(".enter"))
+                lev = nodes_with(g, lambda x: (dotted(x.func) or "").endswith(".leave"))
+                ok = bool(ent) and bool(lev) and bool(recs) \
+                    and not g.always_preceded(recs, ent) and not g.always_preceded(lev, recs)
+                run.ob("C12.emitters", f, ent[0].ast if ent else f.node, ok,
+                       construct=f"{cname}.{meth}: loop opened before, closed after, the element code",
+                       why="element code outside its loop touches one element, or none")
+        f = c.methods.get("visit_StructureType")
+        if f is not None:
+            loops = [x for x in ast.walk(f.node) if isinstance(x, ast.For)
+                     and "members" in ast.unparse(x.iter)]
+            ok = False
+            if len(loops) == 1 and isinstance(loops[0].target, ast.Tuple) and len(loops[0].target.elts) == 2:
+                lp = loops[0]
+                mt = dotted(lp.target.elts[1])
+                g = CFG(f.node)
+                head = g.node_of(lp)
+                recs = [n for n in nodes_with(g, is_rec_into(mt))]
+                filt = [n for n in g.nodes if n.kind == "test"
+                        and "recurse_only_if_allocatable" in ast.unparse(n.ast)
+                        and f"{mt}.is_allocatable()" in ast.unparse(n.ast)]
+                first = [t for t, lab in g.succ[head] if lab == "T"]
+                back = g.reachable(first, avoid=recs + filt, follow_exc=False, include_start=True)
+                leaves = [x for x in ast.walk(lp) if isinstance(x, (ast.Break, ast.Return))]
+                ok = bool(recs) and head not in back and not leaves
+            run.ob("C12.emitters", f, loops[0] if loops else f.node, ok,
+                   construct=f"{cname}.visit_StructureType: every member is descended into "
+                             f"(the allocatable filter aside), none ends the loop",
+                   why="a member that is skipped keeps its storage (leak) or never gets any")
+    # (2) order of allocation / release
+    al = cls("AllocationEmitter").methods["visit_PointerType"]
+    g = CFG(al.node)
+    a_nodes = nodes_with(g, emits("allocate("))
+    r_nodes = nodes_with(g, lambda x: dotted(x.func) == "self.rec")
+    ok = bool(a_nodes) and bool(r_nodes) and not g.always_preceded(r_nodes, a_nodes) \
+        and g.exit not in g.reachable([g.entry], avoid=a_nodes, follow_exc=False, include_start=True)
+    run.ob("C12.emitters", al, a_nodes[0].ast if a_nodes else al.node, ok,
+           construct="AllocationEmitter.visit_PointerType: allocate(<this>) on every path, before "
+                     "descending into what it points to",
+           why="inner blocks are reached through the outer one")
+    de = cls("DeallocationEmitter").methods["visit_PointerType"]
+    g = CFG(de.node)
+    d_nodes = nodes_with(g, emits("deallocate("))
+    n_nodes = nodes_with(g, emits("nullify("))
+    r_nodes = nodes_with(g, lambda x: dotted(x.func) == "self.rec")
+    i_nodes = nodes_with(g, lambda x: dotted(x.func) == "self.deinitializer")
+    uncond = all(g.exit not in g.reachable([g.entry], avoid=[n], follow_exc=False, include_start=True)
+                 for n in d_nodes + n_nodes + i_nodes)
+    ok = bool(d_nodes) and bool(n_nodes) and bool(r_nodes) and bool(i_nodes) and uncond \
+        and not g.always_preceded(d_nodes, i_nodes) and not g.always_preceded(n_nodes, d_nodes) \
+        and not any(r in g.reachable(d_nodes, follow_exc=False) for r in r_nodes)
+    run.ob("C12.emitters", de, d_nodes[0].ast if d_nodes else de.node, ok,
+           construct="DeallocationEmitter.visit_PointerType: descend, deinitialise, deallocate, "
+                     "nullify - in this order, the last three on every path",
+           why="released before its inner blocks, the inner blocks are unreachable (leak) or "
+               "reached through freed storage; not nullified, the next allocation check takes "
+               "the dangling pointer for live storage")
+    ie = cls("InitializationEmitter").methods["visit_PointerType"]
+    g = CFG(ie.node)
+    n_nodes = nodes_with(g, emits("nullify("))
+    ok = bool(n_nodes) and g.exit not in g.reachable([g.entry], avoid=n_nodes, follow_exc=False,
+                                                     include_start=True)
+    run.ob("C12.emitters", ie, n_nodes[0].ast if n_nodes else ie.node, ok,
+           construct="InitializationEmitter.visit_PointerType: nullify(<this>) on every path",
+           why="an undefined pointer looks associated to the allocation check")
+    for cname in ("AllocationEmitter", "DeallocationEmitter", "InitializationEmitter"):
+        v = cls(cname).attrs.get("recurse_only_if_allocatable")
+        run.ob("C12.emitters", cls(cname), v, isinstance(v, ast.Constant) and v.value is True,
+               construct=f"{cname}.recurse_only_if_allocatable = True",
+               why="these traversals have nothing to do below a component without pointers")
